@@ -21,6 +21,8 @@ func propC07(r *Report, tier string) {
 	ruleSplitBaseCase(r, "K5-split-base-case")
 	ruleEnumeratorRadix(r, "K11-enumerator-radix")
 	ruleInclusiveFlagsSingleInterpreter(r, "K7-inclusive-flags-single-interpreter")
+	ruleRangeBoundsAreOpaqueBits(r, "K7-range-bounds-are-opaque-bits")
+	ruleCursorLayoutAgreement(r, "K11-cursor-layout")
 	r.Floor("K11-precision-step", 3)
 	r.Floor("K11-prefix-coding", 4)
 	r.Floor("K5dep-float-maps-pure", 2)
